@@ -18,7 +18,7 @@ ASSUMPTIONS = [
     'texts with duplicate object members, lenient-parser tokens or over-limit integers are not judged here',
     'execution order inside a batch is not judged (C10 does that); executions are compared as multisets',
 ]
-SHARDS = {'quick': 4, 'thorough': 16}
+SHARDS = {'quick': 8, 'thorough': 16}
 TIMEOUT = {'quick': 300, 'thorough': 1800}
 ANCHORS = [
     ('pjrpc/server/dispatcher.py', 'Dispatcher.dispatch'),
@@ -34,7 +34,8 @@ FLOORS = {'*': {
     'kind:batch': 300, 'kind:batch-all-notifications': 10, 'kind:batch-duplicate-ids': 20, 'kind:batch-too-large': 20,
     'kind:batch-invalid-element': 50, 'kind:batch-empty': 2, 'elem:notify-exception': 20, 'elem:notify-unbound': 20,
     'elem:call-ok': 200, 'elem:call-unbound': 50, 'elem:call-unknown-method': 50, 'elem:call-rpc-error': 50,
-    'elem:call-exception': 50, 'metamorphic:batches': 200, 'cfg:sync': 500, 'cfg:async': 500, 'id:str-next-to-int': 10,
+    'elem:call-exception': 50, 'flavour:async-plain': 300, 'flavour:sync-inert': 300, 'flavour:async-inert': 300,
+    'metamorphic:batches': 200, 'cfg:sync': 500, 'cfg:async': 500, 'id:str-next-to-int': 10,
 }}
 
 CONFIGS = [(a, m) for a in (False, True) for m in (None, 0, 1, 3)]
@@ -61,6 +62,9 @@ def gen(ctx):
             cfgs = [(False, m), (True, m)]
         for is_async, mb in cfgs:
             yield 'doc', {'family': family, 'text': text, 'is_async': is_async, 'max_batch': mb}
+        if k % 3 == 0:
+            fl = serverside.EXTRA_FLAVOURS[(k // 3) % 3]
+            yield 'doc', {'family': family, 'text': text, 'is_async': fl.startswith('async'), 'max_batch': None, 'flavour': fl}
 
     for fam, text in docs.singles(rng, full):
         yield from emit(fam, text)
@@ -70,19 +74,21 @@ def gen(ctx):
         yield from emit(fam, text, n)
 
 
-def run_doc(ctx, family, text, is_async, max_batch):
+def run_doc(ctx, family, text, is_async, max_batch, flavour=None):
     info = serverside.TextInfo(text)
-    kind = 'async' if is_async else 'sync'
+    kind = flavour or ('async' if is_async else 'sync')
     if not info.is_json or info.gap or info.bigint or info.dupkeys:
         ctx.unjudge('not-judged-here:' + info.features)
         return
-    w = serverside.get_world(is_async, max_batch)
+    w = serverside.world_for(flavour, max_batch) if flavour else serverside.get_world(is_async, max_batch)
+    if flavour:
+        ctx.hit('flavour:' + flavour)
     o = serverside.observe(w, text)
     if o.ctor_failed:
         ctx.skip('probe-could-not-construct-protocol-error')
         return
     exp = model.expected(info.doc, max_batch)
-    ctx.hit(f'cfg:{kind}')
+    ctx.hit(f'cfg:{"async" if is_async else "sync"}')
     cls = (kind, max_batch, text)
     if max_batch == 0 and isinstance(info.doc, list):
         # left open by the statement: judged for atomicity only
